@@ -93,8 +93,15 @@ def expected_formats(parinfo):
             elif k == 'highlight': f.add('css:background-color:' + (v or ''))
             elif k == 'sz': f.add('css:font-size:' + (v or '') + 'pt')
             elif k == 'color': f.add('css:color:' + (v or ''))
-        for tok in src.TOKEN.findall(x.text): res[tok] = frozenset(f)
+        # (text that follows a NESTED run — the runs of a phonetic guide, w:ruby — inside its run: known finding)
+        nested_before = src.ptag(run) == 'w:r' and any(src.ptag(d) == 'w:r' for sib in x.itersiblings(preceding=True) for d in sib.iter())
+        for tok in src.TOKEN.findall(x.text):
+            res[tok] = frozenset(f)
+            if nested_before: AFTER_NESTED_RUN.add(tok)
     return res
+
+
+AFTER_NESTED_RUN = set()
 
 
 def one(ctx, data, meta=None):
@@ -120,7 +127,7 @@ def one(ctx, data, meta=None):
                 for st in list(r.get('hs') or []) + [x for run in (r.get('rs') or []) for x in run[0]]:
                     okst = ('<' not in st) and ('>' not in st) and st[:1] not in ('', '/', ' ', '\t', '\n', '\r', '\x0b', '\x0c')
                     ctx.count('style string satisfies GoodStyle' if okst else 'style string outside GoodStyle (theorem hypothesis not met)')
-    exp = {}
+    exp = {}; AFTER_NESTED_RUN.clear()
     for path, root in parts.items():
         for p in src.paragraphs(root, path):
             if not p.in_link: exp.update(expected_formats(p))
@@ -139,7 +146,8 @@ def one(ctx, data, meta=None):
             for tok, f in fmt_at.items():
                 if tok in exp and exp[tok] != f:
                     ctx.fail('tags around a stretch of text are not exactly its recognised formatting switched on', c,
-                             {'token': tok, 'expected': sorted(exp[tok]), 'observed': sorted(f), 'html': h}); good = False
+                             {'token': tok, 'expected': sorted(exp[tok]), 'observed': sorted(f), 'html': h},
+                             features=['text-after-nested-run'] if tok in AFTER_NESTED_RUN else []); good = False
     if good: ctx.validated += 1
     if meta and meta['stats'].get('rPr', 0) >= 3: ctx.nontrivial(jhash(data.hex()))
     return good
